@@ -17,12 +17,12 @@ def worker(pid, text, ref):
 CHECKS = [
  worker("C01", "TLC checks the sender design (slice/numbering/no-gap invariants) against an adversarial peer and emits one script per explored input transition; each is replayed on the real Worker and the recorded trace (every DATA datagram's number, slice identity and size class, worker scalars, exit) must be a behaviour of the specification. Seeded random scenarios (reference receiver behind a faulty network) at the real modulus, and model-client downloads through the real process at the block-size boundaries in both port modes, are judged by the same trace specification.", "6/C01"),
  worker("C02", "Same pipeline for the receiver: at every ACK the harness reads the target file from inside Socket::send and TLC compares its projection with the specification's file variable (AckImpliesStored, AckOnlyInSeq, file = accepted prefix). Families include a target that already exists with longer content; seeded random scenarios with a reference sender; model-client uploads through the real process (real socket receive paths, block sizes to 65464, one endpoint re-used for consecutive transfers in single-port mode).", "6/C02"),
- worker("C04", "Trace acceptance decides the safety half of loss tolerance on every explored state: a worker may give up only after 6 consecutive failed receives or an ERROR, must retransmit when the timeout has elapsed and must re-acknowledge on out-of-sequence DATA. TransferClosed.tla (the two workers of the specification against each other over a faulty network with a fault budget) is model-checked for safety and liveness; a real-process download with two consecutive silences checks that the negotiated timeout is what the worker is built with.", "6/C04"),
- worker("C07", "Termination invariants (ends at final ACK, on ERROR, after 6 failures; nothing committed after the end; nothing beyond the final block) model-checked; every state x {ERROR, silence, bogus reply to OACK} replayed on the real Worker incl. thread exit and outcome, with every accepted shape of ERROR packet. Real-process silent-peer scenarios (download and upload, negotiated 1 s and default 5 s timeout, both port modes): one recorded failure per timeout, retransmission after each of the first five, reported give-up after the sixth.", "6/C07"),
- worker("C08", "Window invariants and the action properties RetransmitOnlyOnTimeoutOrGap / ResumeAtKPlus1 / StaleAckInert model-checked; replay with virtual time offsets just below and at the timeout; targeted families at windowsize 65534 and 65535.", "6/C08"),
+ worker("C04", "Trace acceptance decides the safety half of loss tolerance on every explored state: a worker may give up only after 6 consecutive failed receives or an ERROR, must retransmit when the timeout has elapsed and must re-acknowledge on out-of-sequence DATA. TransferClosed.tla (the two workers of the specification against each other over a faulty network with a fault budget) is model-checked for safety and liveness; a real-process download with two consecutive silences checks that the negotiated timeout is what the worker is built with. The retry budget is specified as a budget of CONSECUTIVE failed receives (action property C04_BudgetIsForConsecutiveFailures, checked in every family; defect D8 found and repaired); nine rounds of 'head of the window arrives, tail is lost, one timeout' are driven through the real Worker (recv-lossy-tail) and, with the kernel doing the dropping, through the real binaries (tftpc -b 65464 -w 7 -u, final state).", "6/C04"),
+ worker("C07", "Termination invariants (ends at final ACK, on ERROR, after 6 failures; nothing committed after the end; nothing beyond the final block) model-checked; every state x {ERROR, silence, bogus reply to OACK} replayed on the real Worker incl. thread exit and outcome, with every accepted shape of ERROR packet. Real-process silent-peer scenarios (download and upload, negotiated 1 s and default 5 s timeout, both port modes): one recorded failure per timeout, retransmission after each of the first five, reported give-up after the sixth. Peer-ERROR scenarios against the real process in both port modes: ERROR in mid-transfer, the wire watched across the worker's timeout, end reported within the second.", "6/C07"),
+ worker("C08", "Window invariants and the action properties RetransmitOnlyOnTimeoutOrGap / ResumeAtKPlus1 / StaleAckInert model-checked; replay with virtual time offsets just below and at the timeout; targeted families at windowsize 65534 and 65535. Receivers buffering a megabyte and more (blksize x windowsize) must still acknowledge after exactly windowsize blocks; transfers against the real process whose window (257, 300, 65535) the model client takes from the OACK.", "6/C08"),
  worker("C13", "First clause: every abort point x cause (ERROR, six silences, write error via /dev/full) x {clean, keep} x W replayed on the real receiver; exit event carries file existence and content projection. Second clause: Server.tla (listener, worker life cycles, disk, AsCoded switch) model-checked; request histories (retransmitted / duplicate WRQs, pre-existing targets, hang-up after completion in duplicate-packets mode, silent peers) driven against the real process and validated by Trace_Server / Trace_Transfer. One open known finding (D6).", "6/C13"),
- worker("C15", "Small-modulus instances (M=4, 8) model-checked across several wraps for every W<=M-1; at the real modulus the worker is fast-forwarded to 65533/65534 and every transition of the graph around the wrap is replayed.", "6/C15"),
- worker("C16", "CopiesExactlyR is part of the output descriptor of the specification; families with R=2,3 replayed and judged event-for-event (each DATA / data-phase ACK exactly R times, error reply once). The --duplicate-packets bound is judged through Cli.tla and by starting the real binary; real tftpc against real tftpd with N=1,2,3 through an order-preserving proxy (wire multiplicities) and directly (final files).", "6/C16"),
+ worker("C15", "Small-modulus instances (M=4, 8) model-checked across several wraps for every W<=M-1; at the real modulus the worker is fast-forwarded to 65533/65534 and every transition of the graph around the wrap is replayed. The wrap families run with and without the OACK handshake (an ACK 0 is the handshake's answer at the start and block 65536's acknowledgement at the wrap).", "6/C15"),
+ worker("C16", "CopiesExactlyR is part of the output descriptor of the specification; families with R=2,3 replayed and judged event-for-event (each DATA / data-phase ACK exactly R times, error reply once). The --duplicate-packets bound is judged through Cli.tla and by starting the real binary; real tftpc against real tftpd with N=1,2,3 through an order-preserving proxy (wire multiplicities) and directly (final files). Lock-step downloads from the real process at N = 254 (both port modes) by a model client that acknowledges every copy at once.", "6/C16"),
  dict(property_id="C10", engine="pure", level_claimed=dict(category="model_checking", text="Codec.tla transcribes the wire format; TLC enumerates byte strings (opcode prefixes x token sequences over a reduced alphabet, structured heads x deep token sequences, all 65536 two-byte prefixes x tails), checks stability on each and prints it; the real decoder runs under catch_unwind on each and TLC evaluates Decode on the recorded bytes.", design_ref="6/C10"),
       level_note="Trusted: TLC, the transcription in Codec.tla, harness/src/bin/pure.rs projection of Packet values. Bounded, complete over the reduced alphabet up to the stated token depth.", technique="TLA+ transcription (Codec.tla) enumerated by TLC; one implementation test per enumerated point; results judged by TLC"),
  dict(property_id="C11", engine="pure", level_claimed=dict(category="model_checking", text="Packet values enumerated from a grammar in TLC with RoundTrip as invariant; the real serialize must equal Encode byte-for-byte and deserialize must return the identical packet; all 65536 values of both enum conversions judged by TLC.", design_ref="6/C11"),
@@ -57,8 +57,8 @@ m = {
   {"name": "wsim", "path": "harness/src/sim.rs", "serves_properties": ["C01","C02","C04","C07","C08","C13","C15","C16"], "kind_free_text": "real tftpd::Worker over a simulated Socket and virtual clock; script replay and trace recording"},
   {"name": "pure", "path": "harness/src/bin/pure.rs", "serves_properties": ["C10","C11","C17","C18"], "kind_free_text": "real Packet / Window / Config / ClientConfig driven by TLC-generated vectors"},
   {"name": "net", "path": "vlib/net.py", "serves_properties": ["C03","C05","C06","C09","C12","C13"], "kind_free_text": "real tftpd child process in a sandbox with decoys; one exchange per endpoint with sentinel-confirmed silence; sandbox delta"},
-  {"name": "xfer", "path": "vlib/xfer.py", "serves_properties": ["C01","C02","C04","C05","C07","C09","C12","C13"], "kind_free_text": "model clients against the real process recording transfers in the worker-level event vocabulary (judged by Trace_Transfer)"},
-  {"name": "interop", "path": "vlib/interop.py", "serves_properties": ["C14","C16"], "kind_free_text": "real tftpc against real tftpd through a recording, order-preserving proxy; tftpc against a scripted model server"},
+  {"name": "xfer", "path": "vlib/xfer.py", "serves_properties": ["C01","C02","C04","C05","C07","C08","C09","C12","C13","C16"], "kind_free_text": "model clients against the real process recording transfers in the worker-level event vocabulary (judged by Trace_Transfer)"},
+  {"name": "interop", "path": "vlib/interop.py", "serves_properties": ["C04","C14","C16"], "kind_free_text": "real tftpc against real tftpd through a recording, order-preserving proxy; tftpc against a scripted model server"},
   {"name": "extras", "path": "vlib/extras.py", "serves_properties": ["C02","C08","C15"], "kind_free_text": "unbounded side arguments recorded in evidence: Apalache inductive invariants (SenderInd, ReceiverInd), TLAPS wrap lemma"},
   {"name": "check", "path": "check", "serves_properties": ALL, "kind_free_text": "orchestration: TLC generation (cached by spec hash), replay, TLC judging, attribution, evidence, known findings"},
  ],
